@@ -7,7 +7,7 @@ Every random choice comes from one SplitMix64 state, so a trace is reproducible 
   own    operation whose (projected) output the property under check speaks about
 """
 
-GEN_VERSION = 16
+GEN_VERSION = 18
 
 MASK64 = (1 << 64) - 1
 
@@ -195,7 +195,9 @@ class Trace:
             self.emit("clear %s" % reg, role)
             pres.clear()
         elif op == "collect":
-            n = r.below(8)
+            # mostly short; now and then long with many repeated keys (different host bits / values): the last
+            # occurrence must win whatever the implementation does with the sequence before inserting
+            n = r.below(8) if r.chance(75) else 24 + r.below(110)
             ks = [self.u.key() for _ in range(n)]
             self.emit("collect %s %s" % (reg, " ".join("%s=%d" % (self.u.fmt(k), 0 if reg == "S" else self.v()) for k in ks)), role)
             pres.clear()
@@ -627,6 +629,15 @@ def gen_C18(t, n):
     r = t.rng
     for _ in range(n):
         reg = r.weighted([("A", 6), ("B", 2), ("S", 2)])
+        if r.chance(4):
+            # a long sequence with many repetitions of few keys under different representations: `collect` must
+            # keep the last one of each
+            pool = [t.u.key() for _ in range(3 + r.below(6))]
+            items = " ".join("%s=%d" % (t.u.fmt(r.pick(pool)), 0 if reg == "S" else t.v()) for _ in range(30 + r.below(100)))
+            t.emit("collect %s %s" % (reg, items), "own")
+            t.present[reg] = set(pool)
+            t.emit("%s %s" % ("keys" if reg == "S" else "iter", reg), "own")
+            continue
         t.bg(reg, role="own")
         q = t.existing(reg)
         c = r.below(100)
@@ -838,14 +849,15 @@ def _exh_observe(prop, out, reg, host, canonical):
             out.append(("get_lpm %s %s" % (reg, q(k)), own))
         out.append(("get_lpm_prefix %s %s" % (reg, q(SMALL_QUERIES[host % len(SMALL_QUERIES)])), own))
     elif prop == "C03":
-        for o in ("iter", "into_iter", "keys", "values", "iter_fused", "iter_clone", "into_keys"):
+        for o in (("iter", "into_iter", "keys", "iter_fused", "iter_clone", "ref_iter") if reg == "S" else
+                  ("iter", "into_iter", "keys", "values", "iter_fused", "iter_clone", "into_keys")):
             out.append(("%s %s%s" % (o, reg, " 1" if o == "iter_clone" else ""), own))
     elif prop == "C04":
         out.append(("len %s" % reg, own))
     elif prop == "C09":
         for k in SMALL_QUERIES:
-            out.append(("cover %s %s" % (reg, q(k)), own))
-            out.append(("get_spm %s %s" % (reg, q(k)), own))
+            out.append(("%s %s %s" % ("cover_keys" if reg == "S" else "cover", reg, q(k)), own))
+            out.append(("%s %s %s" % ("get_spm_prefix" if reg == "S" else "get_spm", reg, q(k)), own))
     elif prop == "C10":
         for k in SMALL_QUERIES[:9]:
             out.append(("children %s %s" % (reg, q(k)), own))
@@ -891,23 +903,26 @@ def exhaustive_traces(prop, depth, nshards):
     val = 1
     kinds = {"C05": ["union"], "C06": ["intersection"], "C07": ["difference", "covering_difference"],
              "C08": ["union", "difference"]}.get(prop, [])
-    for sub in range(1 << len(SMALL_KEYS)):
+    cases = [(sub, None) for sub in range(1 << len(SMALL_KEYS))] + ([] if setop else [(0, "S")])   # the empty set too
+    for sub, forced in cases:
         keys = [k for i, k in enumerate(SMALL_KEYS) if sub >> i & 1]
+        # a quarter of the subsets live in the set register (the PrefixSet wrappers and its AsView / AsViewMut impls)
+        reg = forced or ("S" if (not setop and sub % 4 == 3) else "A")
         for sq in seqs:
             n += 1
             out = shards[n % nshards]
             host = (n * 37 + sub) & 0xff
             order = keys if n % 2 == 0 else list(reversed(keys))
-            out.append(("clear A", "reset"))
+            out.append(("clear %s" % reg, "reset"))
             for k in order:
                 val += 1
-                out.append((_exh_line("insert", k, "A", host if n % 3 else 0, val), "bg"))
+                out.append((_exh_line("insert", k, reg, host if n % 3 else 0, 0 if reg == "S" else val), "bg"))
             canonical = all(o in canon_ops for o, _ in sq)
             for o, k in sq:
                 val += 1
-                out.append((_exh_line(o, k, "A", (host * 7) & 0xff, val), "own" if prop in ("C01", "C04", "C15", "C16", "C18") else "bg"))
+                out.append((_exh_line(o, k, reg, (host * 7) & 0xff, 0 if reg == "S" else val), "own" if prop in ("C01", "C04", "C15", "C16", "C18") else "bg"))
             if not setop:
-                _exh_observe(prop, out, "A", host, canonical)
+                _exh_observe(prop, out, reg, host, canonical)
             else:
                 # second operand: another subset derived from the counter, with one leftover node now and then
                 sub2 = (sub * 73 + n * 29) & 0x7f
@@ -927,11 +942,24 @@ def exhaustive_traces(prop, depth, nshards):
     return [sh for sh in shards if sh]
 
 
-def make_trace(prop, seed, index, w, masked, nsteps, canonical=False, small=False):
+def make_trace(prop, seed, index, w, masked, nsteps, canonical=False, small=False, large=False):
     rng = Rng((seed * 0x100000001B3 + index * 0x9E3779B1 + sum(ord(c) for c in prop) * 7919) & MASK64)
     for _ in range(3):
         rng.next()
     t = Trace(rng, w, masked, prop, canonical=canonical,
-              maxlen=(3 if small else None), usize=(5 if small else None))
+              maxlen=(3 if small else None), usize=(5 if small else (260 if large else None)))
+    if large and prop != "C17":
+        # a populated trie of a few hundred nodes in every register before the property's own script starts:
+        # arena well beyond 256 slots, long free lists after the removals, deep paths
+        for reg in ("A", "B", "S"):
+            keys = [t.u.key() for _ in range(90 + rng.below(160))]
+            t.emit("collect %s %s" % (reg, " ".join("%s=%d" % (t.u.fmt(k), 0 if reg == "S" else t.v()) for k in keys)), "bg")
+            t.present[reg] = set(keys)
+            for _ in range(25):
+                t.emit("remove %s %s" % (reg, t.existing(reg)), "bg")
+            for _ in range(25):
+                k = t.u.key()
+                t.emit("insert %s %s %d" % (reg, t.u.fmt(k), 0 if reg == "S" else t.v()), "bg")
+                t.present[reg].add(k)
     GENERATORS[prop](t, nsteps)
     return t
